@@ -529,3 +529,15 @@ def kani(tier):
     if tier != 'thorough': return []
     return [dict(harness='swb_load_checked', oid='C09.k', covers=1, stubs=5, timeout=1500, desc='SECOND ENGINE (Kani/CBMC on the compiled code, REAL byte-level parsing of a symbolic 3.2 KB account): SwitchboardPullPriceFeed::load_checked accepts => owner is the Switchboard program, discriminator matches, now - last_update <= max_age, decoded value/std_dev are the account bytes',
                  functions=['marginfi::state::price::SwitchboardPullPriceFeed::load_checked', 'parse_swb_ignore_alignment', 'LitePullFeedAccountData::from'], bounds='account of exact PullFeedAccountData size with symbolic discriminator, timestamp, value, std_dev; all i64 clocks; max_age <= 65535; unwind 34')]
+
+
+
+# ---------------------------------------------------------------- shared with C04.i: how the risk engine pairs positions with the bank / oracle accounts it is handed (a substituted or shifted account is rejected)
+def t_load_pairing_shared(world):
+    import specs.C04 as C04
+    return C04.t_load_pairing(world, 'C09.i')
+
+
+_t_lps = tasks
+def tasks(tier):
+    return _t_lps(tier) + [('load_pairing', t_load_pairing_shared)]
